@@ -60,7 +60,7 @@ def gen_base(rng, tier, index):
         # small enough for the remaining capacity
         total = sum(-(-c["n"] // c["chunk"]) for c in case["calls"])
         case["functor_quota"] = max(1, -(-total // case["workers"])) + 1
-        if case["workers"] >= 2 and index % 2 == 0:
+        if case["workers"] >= 2:
             case["zero_quota_worker"] = True       # worker 0 has the quota 0, the others share the work
             case["functor_quota"] = max(1, -(-total // (case["workers"] - 1))) + 1
         for c in case["calls"]:
